@@ -45,6 +45,16 @@ mut("c06_scale_std_second_use", "C06", "transforms.py",
     "        out = (x - self.mean) / self.std\n        self.std = np.std(x) if len(x) > 1 else self.std\n        return out",
     "two evaluations in a row: the second one uses the std of the first new frame")
 # ------------------------------------------------------------------ C07
+mut("c07_reentrant_instance_scratch", "C07", "matrices.py",
+    "        new_instance.design_matrix = np.column_stack(\n            [t.eval_new_data(data) for t in self.terms.values()]\n        )\n        new_instance.slices = self.slices",
+    "        self.pending = data\n        new_instance.design_matrix = np.column_stack(\n            [t.eval_new_data(self.pending) for t in self.terms.values()]\n        )\n        new_instance.slices = self.slices",
+    "INTERLEAVING: the same design is evaluated on another frame by user code called from the formula, in the "
+    "middle of an evaluation (scratch state kept on the shared matrix object)")
+mut("c07_reentrant_class_scratch", "C07", "matrices.py",
+    "        new_instance.design_matrix = np.column_stack(\n            [t.eval_new_data(data) for t in self.terms.values()]\n        )\n        new_instance.slices = self.slices",
+    "        CommonEffectsMatrix.pending = data\n        new_instance.design_matrix = np.column_stack(\n            [t.eval_new_data(CommonEffectsMatrix.pending) for t in self.terms.values()]\n        )\n        new_instance.slices = self.slices",
+    "INTERLEAVING: any design is evaluated by user code called from the formula, in the middle of an evaluation of "
+    "another design (process-wide scratch state)")
 mut("c07_poly_class_state", "C07", "transforms.py",
     "    __transform_name__ = \"poly\"\n\n    def __init__(self):\n        self.params_set = False\n        self.degree = 1\n        self.raw = False\n        self.alpha = {}\n        self.norms2 = {}",
     "    __transform_name__ = \"poly\"\n    alpha = {}\n    norms2 = {}\n\n    def __init__(self):\n        self.params_set = False\n        self.degree = 1\n        self.raw = False",
